@@ -22,6 +22,7 @@ def clean():
 
 def run_one(d, also=(), tier="quick", timeout=1500):
     meta = json.load(open(os.path.join(d, "meta.json")))
+    d = os.path.abspath(d)
     patch = os.path.join(d, "patch.diff")
     breaks = [p for p in str(meta.get("breaks", "")).replace(" ", "").split(",") if p.startswith("C")]
     benign = not breaks
